@@ -6,6 +6,7 @@ import CasbinV.Driver.Matcher
 import CasbinV.Driver.Persist
 import CasbinV.Driver.Fast
 import CasbinV.Driver.RoleManager
+import CasbinV.Driver.Builtin
 /-! Line-protocol driver: `driver <family>`; exactly one answer line per input line.
     Lines starting with `#` are echoed; `#reset` also resets a stateful family to its initial state.
     Unknown or malformed lines answer `bad-op` (never defaulted). -/
@@ -25,7 +26,8 @@ def families : List (String × Family) := [
   ("matcher", { σ := Casbin.Driver.Matcher.Table, init := [], step := Casbin.Driver.Matcher.step }),
   ("persist", { σ := Casbin.Driver.Persist.DState, init := {}, step := Casbin.Driver.Persist.handle }),
   ("fast", { σ := Option Casbin.Driver.Fast.St, init := none, step := Casbin.Driver.Fast.step }),
-  ("rm", { σ := Casbin.Driver.RoleManager.St, init := {}, step := Casbin.Driver.RoleManager.step })
+  ("rm", { σ := Casbin.Driver.RoleManager.St, init := {}, step := Casbin.Driver.RoleManager.step }),
+  ("builtin", stateless Casbin.Driver.Builtin.handle)
 ]
 
 partial def runFamily (h out : IO.FS.Stream) (fam : Family) (s : fam.σ) : IO Unit := do
